@@ -232,7 +232,8 @@ where
             }
             Decoded::Packet(Packet::PublishRelease(pkt), size) => {
                 if self.inner.info.borrow().inflight.contains(&pkt.packet_id) {
-                    self.inner.control(ProtocolMessage::pubrel(pkt, size)).await
+                    let packet_id = pkt.packet_id.get();
+                    self.inner.control_pkt(ProtocolMessage::pubrel(pkt, size), packet_id).await
                 } else {
                     Ok(Some(Encoded::Packet(codec::Packet::PublishComplete(
                         codec::PublishAck2 {
